@@ -98,9 +98,11 @@ def _dead():
 class Sched:
     """Deterministic scheduler.  `choose(n, what)` returns an index < n."""
 
-    def __init__(self, choose, max_preemptions=2, max_steps=2000):
+    def __init__(self, choose, max_preemptions=2, max_steps=2000, preempt_window=None):
         self.choose = choose
         self.preempt_left = max_preemptions
+        self.preempt_window = preempt_window   # (lo, hi): preemptions only at scheduling steps lo <= step < hi (sharding of the schedule space)
+        self.delay_bounded = False             # True: also the choice at a blocking point deviates from a default (round-robin) order only at the cost of one unit
         self.max_steps = max_steps
         self.threads: list[VThread] = []
         self.current: VThread | None = None
@@ -150,12 +152,23 @@ class Sched:
                     raise Deadlock("; ".join(t.describe() for t in self.threads if t.state != "done"))
                 cur = self.current
                 if cur is not None and cur in enabled:
-                    cand = [cur] + [t for t in enabled if t is not cur] if self.preempt_left > 0 else [cur]
+                    w = self.preempt_window
+                    may = self.preempt_left > 0 and (w is None or w[0] <= self.steps < w[1])
+                    cand = [cur] + [t for t in enabled if t is not cur] if may else [cur]
+                elif self.delay_bounded:
+                    # default: the next enabled thread after the current one in creation order; any other pick costs one unit
+                    w = self.preempt_window
+                    may = self.preempt_left > 0 and (w is None or w[0] <= self.steps < w[1])
+                    k = self.threads.index(cur) if cur is not None else -1
+                    order = sorted(enabled, key=lambda t: (t.tid - k - 1) % len(self.threads))
+                    cand = order if may else order[:1]
                 else:
                     cand = enabled
                 i = self.choose(len(cand), "thread") if len(cand) > 1 else 0
                 nxt = cand[i]
                 if cur is not None and cur in enabled and nxt is not cur:
+                    self.preempt_left -= 1
+                elif self.delay_bounded and i > 0:
                     self.preempt_left -= 1
                 if nxt is not cur:
                     self.switches += 1
@@ -202,13 +215,14 @@ def sched() -> Sched:
     return SCHED
 
 
-def run(fn, choose, max_preemptions=2, observers=()):
+def run(fn, choose, max_preemptions=2, observers=(), preempt_window=None, delay_bounded=False):
     """Run `fn` as the main virtual thread under a fresh scheduler; returns (result, sched).
     Exceptions of `fn` propagate; a stuck system raises Deadlock."""
     global SCHED
     Lock._n = Condition._n = ThreadPoolExecutor._n = 0   # labels are per run (stable signatures)
-    s = Sched(choose, max_preemptions)
+    s = Sched(choose, max_preemptions, preempt_window=preempt_window)
     s.observers = list(observers)
+    s.delay_bounded = delay_bounded
     prev = SCHED
     SCHED = s
     try:
